@@ -13,15 +13,26 @@ def _self(item):
     try:
         p = Prog.from_source(src, entry)
     except Exception as ex:  # pylint: disable=broad-except
-        return name, None, f'frontend: {ex}', None
+        return name, None, f'frontend: {ex}', None, None
     ok, msg = selfcheck(p, sizes, seed)
     rep = None
+    exact = None
+    if selfcheck.last_model is not None:
+        # end-to-end round trip on the inputs z3 chose: gfortran(text) and gfortran(fgen(parse(text))) are the same
+        # computation, so their outputs must be identical to the last digit (a lost kind / changed literal shows here)
+        try:
+            q0 = Prog.from_source(p.sourcefile.to_fortran(), entry)
+            exact = replay_equiv(p, q0, sizes, selfcheck.last_model, rtol=0)
+        except Exception as ex:  # pylint: disable=broad-except
+            exact = (True, f'regenerated program is rejected by the frontend: {type(ex).__name__}: {str(ex)[:120]}')
+    if exact is not None and exact[0]:
+        return name, ok, msg, rep, exact
     if ok is False:
         # interpreter(parse(text)) disagrees with gfortran(text): frontend defect or interpreter defect?  the compiler
         # decides: compare gfortran(text) with gfortran(fgen(parse(text))) on default inputs and on the failing ones
         q = Prog.from_source(p.sourcefile.to_fortran(), entry)
         rep = replay_equiv(p, q, sizes, {})
-    return name, ok, msg, rep
+    return name, ok, msg, rep, exact
 
 
 def selfvalidate(ctx, tier, seed):
@@ -41,8 +52,14 @@ def selfvalidate(ctx, tier, seed):
             if c.name.startswith('tmpl/') and c.src not in seen:
                 seen.add(c.src)
                 items.append((c.name, c.src, c.entry, c.sizes[0], seed + 1))
-    n_ok = 0
-    for name, ok, msg, rep in pmap(_self, items):
+    n_ok = n_exact = 0
+    for name, ok, msg, rep, exact in pmap(_self, items):
+        if exact is not None:
+            n_exact += 1
+            if exact[0]:
+                ctx.candidate(f'roundtrip-exact:{name}', f'{name}: gfortran(text) and gfortran(fgen(parse(text))) print different values on '
+                              f'solver-chosen inputs: {exact[1][:300]}', {'case': name, 'kind': 'exact'})
+                continue
         if ok:
             n_ok += 1
         elif ok is None:
@@ -52,7 +69,7 @@ def selfvalidate(ctx, tier, seed):
         else:
             ctx.unrepro(f'interpreter disagrees with gfortran on {name}: {msg}')
     ctx.traces_validated = n_ok
-    ctx.extra['selfvalidation'] = {'programs_x_seeds': len(items), 'agree': n_ok}
+    ctx.extra['selfvalidation'] = {'programs_x_seeds': len(items), 'agree': n_ok, 'exact_roundtrip_replays': n_exact}
 
 
 def run(tier, seed):
@@ -73,4 +90,15 @@ def run(tier, seed):
 
 
 def replay(path):
+    import json  # pylint: disable=import-outside-toplevel
+    d = json.load(open(path))['replay']
+    if d.get('kind') == 'exact':
+        from vlib.corpus.programs import P  # pylint: disable=import-outside-toplevel
+        items = [(n, s, e, z[0], 2) for n, s, e, z in P if n == d['case']]
+        items += [(c.name, c.src, c.entry, c.sizes[0], 2) for c in cases('thorough') if c.name == d['case']][:1]
+        for it in items[:1]:
+            res = _self(it)
+            print(res[4])
+            return 1 if res[4] and res[4][0] else 0
+        return 3
     return replay_tv(path, cases('thorough'))
